@@ -416,8 +416,19 @@ impl Session {
             || rx_plain.get_dst_unicast_nodeid().is_none()
             || rx_plain.get_dst_unicast_nodeid() == Some(self.local_nodeid);
 
+        // An RX group session is ephemeral: it is created for one received group
+        // (multicast) message and serves that message only. Every other group message -
+        // even one of the same sender, under the same key - has to go through
+        // `Sessions::get_or_create_for_group_rx`, which is where the group key map of its
+        // destination group and the per-sender group message counter are checked; the
+        // unicast receive window of this session knows nothing about either.
+        let group_msg_matches = !matches!(self.mode, SessionMode::Group { .. })
+            || rx_plain.get_dst_groupcast_nodeid().is_none()
+            || self.rx_ctr_state.is_highest(rx_plain.ctr);
+
         nodeid_matches
             && dest_nodeid_matches
+            && group_msg_matches
             && self.local_sess_id == rx_plain.sess_id
             // Compare canonically: a dual-stack socket may report a peer as
             // `::ffff:a.b.c.d` on receive while the session stored the plain
